@@ -1,24 +1,28 @@
-"""Translator for C19: the tables inside `sigFromPy` and the wrapper classes of txdbus/marshal.py.
+"""Translator for C19: the tables inside `sigFromPy` and the wrapper classes of txdbus/marshal.py,
+extracted by PROBING THE BEHAVIOUR of the module under test (no dependence on how the source is written:
+`elif` chains, early returns, named constants, `if not pobj` ... all give the same table).
 
 Writes lean/TxdbusModel/Gen/Wrappers.lean:
 
-  * `wrapperClasses`  - every class of txdbus.marshal that carries a class attribute `dbusSignature`,
-                        in source order: (class name, builtin base 'int' | 'str', signature character);
+  * `wrapperClasses`  - every class of txdbus.marshal that carries a class attribute `dbusSignature` and
+                        derives from int or str, in source (definition) order:
+                        (class name, builtin base 'int' | 'str', signature character);
   * `variantClassMap` - the module dict `variantClassMap` as (type code, class name), in dict order;
-  * `intRanges`, `intDefault` - the range tests of the plain-int branch of `sigFromPy`
-        if lo <= pobj < hi: return 'c'  (elif ...)*  else: return 'd'
-    read from the AST (the bounds must be integer constant expressions built from literals, unary minus
-    and `**`);
-  * `scalarBranches`  - the `isinstance(pobj, <builtin>)` / `return '<sig>'` branches that precede the
-    list branch, in source order, with 'int' marking the range branch: the order of the class tests
-    (bool before int) is what the model mirrors;
-  * `emptyListSig`, `emptyDictSig`, `mixedListSig` - the three literal signatures returned for `[]`, `{}`
-    and a heterogeneous list.
+  * `intBelow`, `intBreaks` - the plain-int rule ON THE INTEGERS THAT HAVE A DBUS TYPE, [-2**63, 2**64), as a
+        step function: the signature at -2**63, then (lower bound, signature) in ascending order.  Found by
+        evaluating sigFromPy at +-2**k, +-2**k +- 1 inside that range and bisecting every gap in which the
+        answer changes; checked on random integers.  (What sigFromPy does with an integer that no DBus type
+        can hold - answer 't', raise - is deliberately not extracted.)  Every answer must be one character;
+  * `probes` - (name, result) for a fixed list of named probe values covering every rule: scalar classes,
+        the wrapper instances, `[]`, `{}`, `()`, homogeneous / heterogeneous / subclass-mixed lists and dicts,
+        last-key / first-value selection, tuple and nested containers, values without a DBus type.
+        The result is the signature, or `!` when sigFromPy raises (any exception).  Properties/C19.lean proves by `decide` that the
+        code model gives exactly these answers on the same values (`probes_match_model`).
 
-Anything outside this restricted shape raises TranslatorError (table obligation broken).
+Raises TranslatorError (table obligation broken) only if the module cannot be probed at all (no sigFromPy,
+an answer that is not a string, a non-character int signature).
 """
-import ast
-import os
+import random
 
 MODULE = 'TxdbusModel.Gen.Wrappers'
 
@@ -27,148 +31,101 @@ class TranslatorError(Exception):
     pass
 
 
-def _const_int(node):
-    if isinstance(node, ast.Constant) and isinstance(node.value, int) and not isinstance(node.value, bool):
-        return node.value
-    if isinstance(node, ast.UnaryOp) and isinstance(node.op, ast.USub):
-        return -_const_int(node.operand)
-    if isinstance(node, ast.BinOp) and isinstance(node.op, ast.Pow):
-        b, e = _const_int(node.left), _const_int(node.right)
-        if not 0 <= e <= 128:
-            raise TranslatorError('exponent out of range')
-        return b ** e
-    raise TranslatorError('not an integer constant expression: ' + ast.dump(node))
+def _sig(m, v):
+    try:
+        r = m.sigFromPy(v)
+    except Exception:
+        return '!'          # which exception class is not part of the property
+    if not isinstance(r, str):
+        raise TranslatorError('sigFromPy(%r) returned %r' % (v, r))
+    return r
 
 
-def _ret_str(stmts, what):
-    if len(stmts) == 1 and isinstance(stmts[0], ast.Return) and isinstance(stmts[0].value, ast.Constant) \
-            and isinstance(stmts[0].value.value, str):
-        return stmts[0].value.value
-    raise TranslatorError('%s: expected a single `return "<literal>"`' % what)
-
-
-def _isinstance_of(test):
-    if (isinstance(test, ast.Call) and isinstance(test.func, ast.Name) and test.func.id == 'isinstance'
-            and len(test.args) == 2 and isinstance(test.args[0], ast.Name) and test.args[0].id == 'pobj'
-            and isinstance(test.args[1], ast.Name)):
-        return test.args[1].id
-    raise TranslatorError('expected isinstance(pobj, <name>): ' + ast.dump(test))
-
-
-def _range_chain(stmts):
-    """if lo <= pobj < hi: return 'c' elif ... else: return 'd'  ->  ([(lo, hi, c)], d)"""
-    if len(stmts) != 1 or not isinstance(stmts[0], ast.If):
-        raise TranslatorError('int branch: expected one if/elif/else chain')
+def wrapper_classes(m):
     out = []
-    node = stmts[0]
-    while True:
-        t = node.test
-        if not (isinstance(t, ast.Compare) and len(t.ops) == 2 and isinstance(t.ops[0], ast.LtE)
-                and isinstance(t.ops[1], ast.Lt) and isinstance(t.comparators[0], ast.Name)
-                and t.comparators[0].id == 'pobj'):
-            raise TranslatorError('int branch: expected `lo <= pobj < hi`: ' + ast.dump(t))
-        lo, hi = _const_int(t.left), _const_int(t.comparators[1])
-        c = _ret_str(node.body, 'int branch')
-        if len(c) != 1:
-            raise TranslatorError('int branch: signature is not one character')
-        out.append((lo, hi, c))
-        if len(node.orelse) == 1 and isinstance(node.orelse[0], ast.If):
-            node = node.orelse[0]
-            continue
-        d = _ret_str(node.orelse, 'int branch default')
-        if len(d) != 1:
-            raise TranslatorError('int branch: default signature is not one character')
-        return out, d
-
-
-def sigfrompy_tables(repo):
-    src = open(os.path.join(repo, 'txdbus', 'marshal.py'), encoding='utf-8').read()
-    tree = ast.parse(src)
-    fn = [n for n in tree.body if isinstance(n, ast.FunctionDef) and n.name == 'sigFromPy']
-    if len(fn) != 1:
-        raise TranslatorError('sigFromPy not found')
-    body = [s for s in fn[0].body if not (isinstance(s, ast.Expr) and isinstance(s.value, ast.Constant))]
-    # sig = getattr(pobj, 'dbusSignature', None); if sig is not None: return sig; elif ...
-    a = body[0]
-    if not (isinstance(a, ast.Assign) and isinstance(a.value, ast.Call) and isinstance(a.value.func, ast.Name)
-            and a.value.func.id == 'getattr' and len(a.value.args) == 3
-            and isinstance(a.value.args[1], ast.Constant) and a.value.args[1].value == 'dbusSignature'
-            and isinstance(a.value.args[2], ast.Constant) and a.value.args[2].value is None):
-        raise TranslatorError('sigFromPy: first statement is not the getattr(pobj, "dbusSignature", None)')
-    if len(body) != 2 or not isinstance(body[1], ast.If):
-        raise TranslatorError('sigFromPy: expected getattr + one if/elif chain')
-    node = body[1]
-    t = node.test
-    if not (isinstance(t, ast.Compare) and isinstance(t.left, ast.Name) and t.left.id == 'sig'
-            and len(t.ops) == 1 and isinstance(t.ops[0], ast.IsNot)
-            and isinstance(t.comparators[0], ast.Constant) and t.comparators[0].value is None
-            and len(node.body) == 1 and isinstance(node.body[0], ast.Return)
-            and isinstance(node.body[0].value, ast.Name) and node.body[0].value.id == 'sig'):
-        raise TranslatorError('sigFromPy: first branch is not `if sig is not None: return sig`')
-    scalars, ranges, default = [], None, None
-    containers = []
-    node = node.orelse[0] if len(node.orelse) == 1 and isinstance(node.orelse[0], ast.If) else None
-    while node is not None:
-        cls = _isinstance_of(node.test)
-        if cls == 'int':
-            ranges, default = _range_chain(node.body)
-            scalars.append(('int', 'int'))
-        elif cls in ('list', 'tuple', 'dict'):
-            containers.append((cls, node))
-        else:
-            if containers:
-                raise TranslatorError('sigFromPy: scalar branch after a container branch')
-            scalars.append((cls, _ret_str(node.body, cls + ' branch')))
-        if len(node.orelse) == 1 and isinstance(node.orelse[0], ast.If):
-            node = node.orelse[0]
-        else:
-            if not (len(node.orelse) == 1 and isinstance(node.orelse[0], ast.Raise)):
-                raise TranslatorError('sigFromPy: chain does not end in `else: raise`')
-            node = None
-    if ranges is None:
-        raise TranslatorError('sigFromPy: no int branch')
-    if [c for c, _ in containers] != ['list', 'tuple', 'dict']:
-        raise TranslatorError('sigFromPy: container branches are not list, tuple, dict')
-    lst, dct = containers[0][1], containers[2][1]
-
-    def empty_ret(n, lit):
-        st = n.body[0]
-        if not (isinstance(st, ast.If) and isinstance(st.test, ast.Compare) and isinstance(st.test.left, ast.Name)
-                and st.test.left.id == 'pobj' and isinstance(st.test.ops[0], ast.Eq)
-                and isinstance(st.test.comparators[0], lit) and not getattr(st.test.comparators[0], 'elts', [])
-                and not getattr(st.test.comparators[0], 'keys', [])):
-            raise TranslatorError('sigFromPy: container branch does not start with the emptiness test')
-        return _ret_str(st.body, 'empty container')
-    empty_list = empty_ret(lst, ast.List)
-    empty_dict = empty_ret(dct, ast.Dict)
-    last = lst.body[-1]
-    if not (isinstance(last, ast.If) and isinstance(last.test, ast.Name) and last.test.id == 'same'):
-        raise TranslatorError('sigFromPy: list branch does not end with `if same:`')
-    mixed = _ret_str(last.orelse, 'heterogeneous list')
-    return scalars, ranges, default, empty_list, empty_dict, mixed
-
-
-def wrapper_classes(repo):
-    from txdbus import marshal
-    src = open(os.path.join(repo, 'txdbus', 'marshal.py'), encoding='utf-8').read()
-    out = []
-    for n in ast.parse(src).body:
-        if isinstance(n, ast.ClassDef):
-            k = getattr(marshal, n.name)
-            sig = k.__dict__.get('dbusSignature')
-            if sig is None:
-                continue
-            if not (isinstance(sig, str) and len(sig) == 1):
-                raise TranslatorError('%s.dbusSignature is not one character' % n.name)
-            if len(k.__bases__) != 1 or k.__bases__[0] not in (int, str):
-                raise TranslatorError('%s: base is not int or str' % n.name)
-            out.append((n.name, k.__bases__[0].__name__, sig))
+    for name, k in vars(m).items():
+        if isinstance(k, type) and k.__module__ == m.__name__ and 'dbusSignature' in k.__dict__:
+            sig = k.__dict__['dbusSignature']
+            bases = [b for b in (int, str) if issubclass(k, b)]
+            if not (isinstance(sig, str) and len(sig) == 1) or len(bases) != 1:
+                raise TranslatorError('%s: dbusSignature %r / bases %r' % (name, sig, k.__bases__))
+            out.append((name, bases[0].__name__, sig))
     vmap = []
-    for code, k in marshal.variantClassMap.items():
-        if not (isinstance(code, str) and len(code) == 1):
-            raise TranslatorError('variantClassMap key %r' % (code,))
+    for code, k in getattr(m, 'variantClassMap', {}).items():
+        if not (isinstance(code, str) and len(code) == 1 and isinstance(k, type)):
+            raise TranslatorError('variantClassMap entry %r' % (code,))
         vmap.append((code, k.__name__))
     return out, vmap
+
+
+LO, HI = -2 ** 63, 2 ** 64     # the integers that have a DBus type at all
+
+
+def int_steps(m):
+    def f(n):
+        r = _sig(m, n)
+        if len(r) != 1 or r.startswith('!'):
+            raise TranslatorError('sigFromPy(%d) = %r is not one type code' % (n, r))
+        return r
+    pts = {0}
+    for k in range(0, 71):
+        for d in (-1, 0, 1):
+            pts.add(2 ** k + d)
+            pts.add(-(2 ** k) + d)
+    pts = sorted(p for p in pts if LO <= p < HI)
+    vals = [f(p) for p in pts]
+    breaks = []
+    for (p, a), (q, b) in zip(zip(pts, vals), zip(pts[1:], vals[1:])):
+        if a != b:
+            lo, hi = p, q          # f(lo) = a, f(hi) = b; find the least n in (lo, hi] with f(n) != a
+            while hi - lo > 1:
+                mid = (lo + hi) // 2
+                if f(mid) == a:
+                    lo = mid
+                else:
+                    hi = mid
+            breaks.append((hi, f(hi)))
+    below = vals[0]
+    # sanity: the step function reproduces sigFromPy on random integers
+    rng = random.Random(19)
+    for _ in range(400):
+        n = rng.randint(LO, HI - 1) >> rng.randrange(0, 64)
+        want = below
+        for lo, c in breaks:
+            if n >= lo:
+                want = c
+        if f(n) != want:
+            raise TranslatorError('int rule is not the step function found by probing (at %d)' % n)
+    return below, breaks
+
+
+def probe_values(m):
+    """(name, value) - the names and their order are fixed: Properties/C19.lean lists the same values."""
+    W = lambda n: getattr(m, n, None)
+
+    def w(n, v):
+        k = W(n)
+        if k is None:
+            raise TranslatorError('wrapper class %s missing' % n)
+        return k(v)
+    return [
+        ('True', True), ('1.5', 1.5), ("'x'", 'x'), ('bytearray', bytearray(b'x')), ('None', None),
+        ('Byte', w('Byte', 1)), ('Boolean', w('Boolean', 1)), ('Int16', w('Int16', 1)), ('UInt16', w('UInt16', 1)),
+        ('Int32', w('Int32', 1)), ('UInt32', w('UInt32', 1)), ('Int64', w('Int64', 1)), ('UInt64', w('UInt64', 1)),
+        ('Signature', w('Signature', 'i')), ('ObjectPath', w('ObjectPath', '/')),
+        ('[]', []), ('{}', {}), ('()', ()),
+        ('[1]', [1]), ('[1,2]', [1, 2]), ("[1,'a']", [1, 'a']), ('[1,True]', [1, True]), ('[True,1]', [True, 1]),
+        ('[1,UInt64(1)]', [1, w('UInt64', 1)]), ('[UInt64(1),1]', [w('UInt64', 1), 1]),
+        ("['a',ObjectPath]", ['a', w('ObjectPath', '/')]), ('[1,2**40]', [1, 2 ** 40]), ('[2**40,1]', [2 ** 40, 1]),
+        ('[[]]', [[]]), ('[[],[1]]', [[], [1]]), ('[[1],[]]', [[1], []]), ('[None]', [None]), ('[1,None]', [1, None]),
+        ("(1,'a')", (1, 'a')), ('((1,),[2])', ((1,), [2])), ('[()]', [()]), ('(None,)', (None,)),
+        ("{'a':1}", {'a': 1}), ("{'a':1,'b':2}", {'a': 1, 'b': 2}), ("{'a':1,'b':'x'}", {'a': 1, 'b': 'x'}),
+        ("{'a':2,'b':True}", {'a': 2, 'b': True}), ("{'a':True,'b':2}", {'a': True, 'b': 2}),
+        ("{'a':1,'b':2**40}", {'a': 1, 'b': 2 ** 40}), ("{'a':2**40,'b':1}", {'a': 2 ** 40, 'b': 1}),
+        ("{'k':'a',1:'b'}", {'k': 'a', 1: 'b'}), ("{1:'a','k':'b'}", {1: 'a', 'k': 'b'}),
+        ('{(1,2):3}', {(1, 2): 3}), ('{1.5:[]}', {1.5: []}), ("{'a':{}}", {'a': {}}), ("{'a':None}", {'a': None}),
+        ("{'a':1,'b':None}", {'a': 1, 'b': None}),
+    ]
 
 
 def _ch(c):
@@ -184,10 +141,14 @@ def _str(s):
 
 
 def emit(repo):
-    classes, vmap = wrapper_classes(repo)
-    scalars, ranges, default, empty_list, empty_dict, mixed = sigfrompy_tables(repo)
+    from txdbus import marshal as m
+    if not hasattr(m, 'sigFromPy'):
+        raise TranslatorError('txdbus.marshal.sigFromPy missing')
+    classes, vmap = wrapper_classes(m)
+    below, breaks = int_steps(m)
+    probes = [(n, _sig(m, v)) for n, v in probe_values(m)]
     L = ['/-',
-         'GENERATED by tools/tables/c19_wrappers.py from txdbus/marshal.py of the repository under test.',
+         'GENERATED by tools/tables/c19_wrappers.py by probing txdbus/marshal.py of the repository under test.',
          'Do not edit: regenerated on every run.',
          '-/',
          'namespace Txdbus.Gen.Wrappers',
@@ -200,20 +161,16 @@ def emit(repo):
          'def variantClassMap : List (Char × String) :=',
          '  [' + ', '.join('(%s, %s)' % (_ch(c), _str(n)) for c, n in vmap) + ']',
          '',
-         '/-- Plain-int branch of `sigFromPy`: `if lo <= pobj < hi: return c` in order. -/',
-         'def intRanges : List (Int × Int × Char) :=',
-         '  [' + ', '.join('(%d, %d, %s)' % (lo, hi, _ch(c)) for lo, hi, c in ranges) + ']',
+         '/-- Plain-int rule as a step function: the signature below the first break ... -/',
+         'def intBelow : Char := ' + _ch(below),
          '',
-         'def intDefault : Char := ' + _ch(default),
+         '/-- ... and (lower bound, signature from there on), ascending. -/',
+         'def intBreaks : List (Int × Char) :=',
+         '  [' + ', '.join('(%d, %s)' % (lo, _ch(c)) for lo, c in breaks) + ']',
          '',
-         '/-- The `isinstance` branches before the container branches, in order: (class, returned',
-         'signature), with "int" standing for the range branch above. -/',
-         'def scalarBranches : List (String × String) :=',
-         '  [' + ', '.join('(%s, %s)' % (_str(c), _str(s)) for c, s in scalars) + ']',
-         '',
-         'def emptyListSig : String := ' + _str(empty_list),
-         'def emptyDictSig : String := ' + _str(empty_dict),
-         'def mixedListSig : String := ' + _str(mixed),
+         '/-- Named probes of `sigFromPy`: (name, signature or "!" = raises). -/',
+         'def probes : List (String × String) :=',
+         '  [' + ',\n   '.join('(%s, %s)' % (_str(n), _str(r)) for n, r in probes) + ']',
          '',
          'end Txdbus.Gen.Wrappers']
     return '\n'.join(L) + '\n'
